@@ -102,6 +102,8 @@ type Analyzer struct {
 	OnMapUpdate func(fn *ssa.Function, ins *ssa.MapUpdate, st *State, m, k, v Term)
 	// OnAppend observes append calls (dst slice, appended operand).
 	OnAppend func(fn *ssa.Function, site ssa.Instruction, st *State, dst *Slice, src Term)
+	// OnExternal observes calls of functions without a repo body (library calls).
+	OnExternal func(fn *ssa.Function, site ssa.Instruction, name string, st *State, args []Term)
 	// OnInlined observes every return of an inlined repo function.
 	OnInlined func(fn *ssa.Function, args []Term, val Term, st *State)
 	// OnWrite observes binary.PutUintN writes (layout extraction of encoders).
